@@ -50,6 +50,7 @@ class Profile:
     free_constraints: float = 0.15
     free_p_true: float = 0.7
     max_R: int = 2
+    allow_period: bool = True
     max_RC: int = 2
     extra: dict = field(default_factory=dict)
 
@@ -174,6 +175,7 @@ def model_specs(draw, prof: Profile = Profile()):
     b = _Builder(d, prof)
     T = d.int(prof.min_periods, prof.max_periods)
     b.T = T
+    Tp = T if prof.allow_period else 1  # period-dependent features only if allowed
     fully_discrete = d.bool(prof.fully_discrete) if prof.fully_discrete else False
     nds = d.int(0, prof.max_disc_states)
     ncs = 0 if fully_discrete else d.int(0, prof.max_cont_states)
@@ -285,7 +287,7 @@ def model_specs(draw, prof: Profile = Profile()):
         else:
             RC = d.subset(dchoices, 0, prof.max_RC)
         RC = [c for c in dchoices if c in RC]
-        per = T > 1 and d.bool(prof.p_period_filter)
+        per = Tp > 1 and d.bool(prof.p_period_filter)
         if filter_mode == "drop":
             shp_s = tuple(size[s] for s in R)
             shp_c = tuple(size[c] for c in RC)
@@ -352,7 +354,7 @@ def model_specs(draw, prof: Profile = Profile()):
             if i > 0 and d.bool(0.6):
                 terms.append(f"0.5 * {pool[0]}")
                 args.append(pool[0])
-            if T > 1 and d.bool(0.15):
+            if Tp > 1 and d.bool(0.15):
                 terms.append("0.1 * _period")
                 args.append("_period")
             if not terms:
@@ -410,7 +412,7 @@ def model_specs(draw, prof: Profile = Profile()):
         st_ = [s for s in dstates if s in st_]
         ch_ = [c for c in dchoices if c in ch_]
         over = st_ + ch_
-        perk = T > 1 and d.bool(0.3)
+        perk = Tp > 1 and d.bool(0.3)
         free = d.bool(prof.free_constraints)
 
         def g(shp):
@@ -434,7 +436,7 @@ def model_specs(draw, prof: Profile = Profile()):
     u_states = [s for s in states if not (s in touched and d.bool(0.2))]
     u_dvars = [v for v in dvars if (v in u_states or v in dchoices)]
     if u_dvars:
-        per = T > 1 and d.bool(0.35)
+        per = Tp > 1 and d.bool(0.35)
         terms.append(b.table(u_dvars, per, lambda shp: d.table_float(shp, -2, 2)))
         uargs += u_dvars
         if per:
@@ -499,7 +501,7 @@ def model_specs(draw, prof: Profile = Profile()):
         if f"next_{s}" in functions:
             continue
         if prof.allow_stoch and d.bool(prof.p_stoch):
-            pool = dvars + (["_period"] if T > 1 else [])
+            pool = dvars + (["_period"] if Tp > 1 else [])
             deps = d.subset(pool, 1, 3)
             deps = d.perm(deps)
             shp = tuple(T if x == "_period" else size[x] for x in deps)
@@ -508,7 +510,7 @@ def model_specs(draw, prof: Profile = Profile()):
             params.setdefault("shocks", {})[s] = P
         else:
             over = d.subset(dvars, 1, 2)
-            per = T > 1 and d.bool(0.25)
+            per = Tp > 1 and d.bool(0.25)
             expr = b.table(over, per, lambda shp, n=size[s]: d.table_int(shp, n))
             functions[f"next_{s}"] = dict(args=over + (["_period"] if per else []), body=expr)
     for w in cstates:
@@ -532,7 +534,7 @@ def model_specs(draw, prof: Profile = Profile()):
             an = d.choice(aux_names)
             e += f" + 0.2 * {an}"
             args.append(an)
-        if T > 1 and d.bool(0.15):
+        if Tp > 1 and d.bool(0.15):
             e += " + 0.05 * _period"
             args.append("_period")
         if prof.every_function_has_params or d.bool(0.5):
